@@ -24,6 +24,7 @@ const (
 	kRec
 	kSlice
 	kFunc
+	kErr // the predeclared type error: option N (nil = None; a package-level error variable is Some of an opaque number)
 )
 
 type ty struct {
@@ -46,7 +47,14 @@ type recField struct {
 	t    ty
 }
 
-type opq struct{ name, typ string }
+type opq struct {
+	name, typ string
+	// for an opaque INTERFACE method: the interface-typed parameter it is called on and the
+	// method; a caller that passes a value of a concrete type for that parameter instantiates
+	// the opaque parameter with the concrete method (static devirtualisation)
+	ifaceVar *types.Var
+	method   *types.Func
+}
 
 type unit struct {
 	obj     *types.Func
@@ -66,6 +74,9 @@ type unit struct {
 	opaque  []opq
 	mutated []*types.Var
 	state   int
+	fueled  bool         // contains a for-cond loop (or calls a function that does): takes (fuel : nat), returns option
+	curried bool         // returns a closure: the definition takes the closure's parameters too (callers are refused)
+	resTys  []types.Type // effective result types (an interface{} result all of whose returns have one concrete type has that type)
 }
 
 type Tr struct {
@@ -148,7 +159,7 @@ func (t *Tr) translate(u *unit) {
 	if u.decl == nil || u.decl.Body == nil {
 		panic(trErr{fmt.Sprintf("no Go source body for %s", u.key)})
 	}
-	c := &fctx{t: t, u: u, info: u.pkg.info, env: map[envKey]string{}, used: map[string]bool{}, opq: map[string]opq{}}
+	c := &fctx{t: t, u: u, info: u.pkg.info, env: map[envKey]string{}, used: map[string]bool{}, opq: map[string]opq{}, ifaceLocals: map[*types.Var]bool{}}
 	c.function()
 }
 
@@ -174,6 +185,35 @@ type fctx struct {
 	retTy  string                      // Coq type of the value the current return continuation produces
 	retK   func(vals []string) string  // what a return statement produces
 	recvOb *types.Var
+	rawTy   string                     // Coq type of the function's result tuple (without option)
+	retWrap func(r string) string      // a return of the (tupled) value r in the current context
+	fuelOut func() string              // "out of fuel" in the current context (fueled functions only)
+	resTys  []types.Type               // effective result types of the function (or function literal) being translated
+	ifaceLocals map[*types.Var]bool    // local interface variables bound once to a result of an opaque call
+	contK   func() string              // what an unlabelled continue produces in the innermost loop (nil: not allowed here)
+	inLoop  int                        // nesting depth of loops at the current statement
+	recCl   map[types.Object]*recClosure // recursive closures in scope (recfn.go)
+	recFuel string                     // inside the body of a recursive closure: the fuel its recursive calls get
+	gotos   map[ast.Node]bool          // goto / label nodes of the supported search-loop pattern (recfn.go: searchGoto)
+	curried *types.Signature           // the function returns a closure of this signature: translated uncurried (curry.go)
+	curNames []string                  // Gallina names of the closure's parameters
+}
+
+// addOpq registers an opaque parameter of the function being translated; one name must have
+// one type (and, for interface methods, one interface value).
+func (c *fctx) addOpq(o opq, p token.Pos) {
+	if old, ok := c.opq[o.name]; ok {
+		if old.typ != o.typ {
+			c.fail(p, "opaque parameter %s is used at two types (%s and %s)", o.name, old.typ, o.typ)
+		}
+		if old.ifaceVar != nil && o.ifaceVar != nil && old.ifaceVar != o.ifaceVar {
+			c.fail(p, "opaque interface method %s is called on two different interface values (%s and %s)", o.name, old.ifaceVar.Name(), o.ifaceVar.Name())
+		}
+		if o.ifaceVar == nil {
+			o.ifaceVar, o.method = old.ifaceVar, old.method
+		}
+	}
+	c.opq[o.name] = o
 }
 
 func (c *fctx) fail(p token.Pos, f string, a ...interface{}) {
@@ -186,7 +226,7 @@ func init() {
 	for _, w := range strings.Fields(`as at cofix else end exists exists2 fix for forall fun if IF in let match mod Prop return Set then Type using where with
 		fst snd fold_left map rev seq nth length negb andb orb true false None Some pair nil cons inject_Z Qred Qabs Qfloor Qceiling
 		Qltb Qleb Qeqb QofN repeat combine app Z N Q nat bool list option unit tt S O xH xI xO Z0 Zpos Zneg N0 Npos Qmake
-		Qplus Qminus Qmult Qdiv Qopp Qinv Qnum Qden Qle_bool Qeq_bool id`) {
+		Qplus Qminus Qmult Qdiv Qopp Qinv Qnum Qden Qle_bool Qeq_bool id fuel Go_next Go_ret Go_fuel`) {
 		reserved[w] = true
 	}
 }
@@ -416,6 +456,9 @@ func (c *fctx) typeOf(t types.Type, p token.Pos) ty {
 		if _, ok := x.Underlying().(*types.Struct); ok {
 			return ty{k: kRec, rec: x}
 		}
+		if x.Obj().Pkg() == nil && x.Obj().Name() == "error" {
+			return ty{k: kErr}
+		}
 		if _, ok := x.Underlying().(*types.Interface); ok {
 			c.fail(p, "interface type %s", x.String())
 		}
@@ -448,6 +491,8 @@ func (c *fctx) coqTy(t ty, p token.Pos) string {
 		return "(list " + c.coqTy(*t.elem, p) + ")"
 	case kFunc:
 		return "(" + c.coqSig(t.sig, p) + ")"
+	case kErr:
+		return "(option N)"
 	}
 	return "?"
 }
@@ -483,6 +528,8 @@ func (c *fctx) zero(t ty, p token.Pos) string {
 		return "false"
 	case kSlice:
 		return "(@nil " + c.coqTy(*t.elem, p) + ")"
+	case kErr:
+		return "(@None N)"
 	case kRec:
 		r := c.record(t.rec, p)
 		s := "(mk_" + r.name
@@ -622,30 +669,83 @@ func (c *fctx) function() {
 		params = append(params, prm{pn, c.coqTy(t, v.Pos())})
 	}
 	// results
+	if inner := curriedSig(sig); inner != nil && c.mustUncurry(d.Body) {
+		// the function returns a closure: translated uncurried (curry.go)
+		u.curried = true
+		c.curried = inner
+		u.resTys = make([]types.Type, inner.Results().Len())
+		for i := range u.resTys {
+			u.resTys[i] = inner.Results().At(i).Type()
+		}
+		for i := 0; i < inner.Params().Len(); i++ {
+			v := inner.Params().At(i)
+			t := c.typeOf(v.Type(), d.Pos())
+			if t.k == kRec || t.k == kFunc {
+				c.fail(d.Pos(), "returned closure with a struct or function parameter")
+			}
+			name := v.Name()
+			if name == "" || name == "_" {
+				name = "arg"
+			}
+			for _, lit := range returnedLits(d.Body) {
+				if i < len(lit.Type.Params.List) && len(lit.Type.Params.List[i].Names) == 1 {
+					name = lit.Type.Params.List[i].Names[0].Name
+					break
+				}
+			}
+			pn := c.fresh(name)
+			c.curNames = append(c.curNames, pn)
+			params = append(params, prm{pn, c.coqTy(t, d.Pos())})
+		}
+	} else {
+		u.resTys = c.effectiveResults(d, sig)
+	}
+	c.resTys = u.resTys
+	u.fueled = c.needsFuel(d.Body) || hasRecClosure(d.Body)
+	if u.curried {
+		for _, lit := range returnedLits(d.Body) {
+			if c.needsFuel(lit.Body) || hasRecClosure(lit.Body) {
+				u.fueled = true
+			}
+		}
+	}
 	var rts []string
 	for _, v := range ptrs {
 		rts = append(rts, c.coqTy(c.typeOf(v.Type(), v.Pos()), v.Pos()))
 	}
 	named := false
-	for i := 0; i < sig.Results().Len(); i++ {
-		rv := sig.Results().At(i)
-		t := c.typeOf(rv.Type(), d.Pos())
+	for i := 0; i < len(u.resTys); i++ {
+		t := c.typeOf(u.resTys[i], d.Pos())
 		rts = append(rts, c.coqTy(t, d.Pos()))
-		if rv.Name() != "" && rv.Name() != "_" {
-			named = true
+		if !u.curried {
+			if rv := sig.Results().At(i); rv.Name() != "" && rv.Name() != "_" {
+				named = true
+			}
+		}
+	}
+	if u.curried {
+		if rv := sig.Results().At(0); rv.Name() != "" && rv.Name() != "_" {
+			c.fail(d.Pos(), "named result of function type")
 		}
 	}
 	if len(rts) == 0 {
 		c.fail(d.Pos(), "function without result and without a modified pointer parameter")
 	}
 	c.retTy = strings.Join(rts, " * ")
+	c.rawTy = c.retTy
+	if u.fueled {
+		c.retWrap = func(r string) string { return "(Some " + r + ")" }
+		c.fuelOut = func() string { return "None" }
+	} else {
+		c.retWrap = func(r string) string { return r }
+	}
 	c.retK = func(vals []string) string {
 		var xs []string
 		for _, v := range ptrs {
 			xs = append(xs, c.readVar(v))
 		}
 		xs = append(xs, vals...)
-		return tuple(xs)
+		return c.retWrap(tuple(xs))
 	}
 	// named results are ordinary variables initialised to zero
 	pre := ""
@@ -655,7 +755,7 @@ func (c *fctx) function() {
 			if rv.Name() == "" || rv.Name() == "_" {
 				c.fail(d.Pos(), "mixture of named and blank results")
 			}
-			t := c.typeOf(rv.Type(), d.Pos())
+			t := c.typeOf(u.resTys[i], d.Pos())
 			if t.k == kRec {
 				pre += c.writeWhole(rv, c.record(t.rec, d.Pos()), c.zero(t, d.Pos()))
 				continue
@@ -688,10 +788,17 @@ func (c *fctx) function() {
 	for _, o := range ops {
 		fmt.Fprintf(&sb, " (%s : %s)", o.name, o.typ)
 	}
+	if u.fueled {
+		sb.WriteString(" (fuel : nat)")
+	}
 	for _, p := range params {
 		fmt.Fprintf(&sb, " (%s : %s)", p.name, p.typ)
 	}
-	fmt.Fprintf(&sb, " : %s :=\n%s.\n", c.retTy, indent(pre+body, "  "))
+	rt := c.rawTy
+	if u.fueled {
+		rt = "option (" + rt + ")"
+	}
+	fmt.Fprintf(&sb, " : %s :=\n%s.\n", rt, indent(pre+body, "  "))
 	u.text = sb.String()
 }
 
@@ -706,6 +813,11 @@ func (c *fctx) namedResults() []string {
 func isInterface(t types.Type) bool {
 	_, ok := t.Underlying().(*types.Interface)
 	return ok
+}
+
+func isErrorType(t types.Type) bool {
+	n, ok := t.(*types.Named)
+	return ok && n.Obj().Pkg() == nil && n.Obj().Name() == "error"
 }
 
 func tuple(xs []string) string {
@@ -790,8 +902,28 @@ func (c *fctx) assigned(n ast.Node) []envKey {
 			add(c.keysOf(s.X))
 		case *ast.ExprStmt:
 			if call, ok := s.X.(*ast.CallExpr); ok {
-				if o := c.mutatedReceiver(call); o != nil {
+				if rc := c.recClosureOf(call); rc != nil {
+					add(rc.w) // a call of a recursive closure updates the closure's state
+				} else if o := c.mutatedReceiver(call); o != nil {
 					add(c.allKeys(o))
+				} else if id, ok := call.Fun.(*ast.Ident); ok && id.Name == "copy" && len(call.Args) == 2 {
+					if b, isB := c.info.Uses[id].(*types.Builtin); isB && b.Name() == "copy" {
+						add(c.keysOf(call.Args[0]))
+					}
+				} else if f := c.calledFunc(call); f != nil && len(call.Args) == 1 {
+					if _, isOpaque := c.opaqueName(f); isOpaque && f.Type().(*types.Signature).Results().Len() == 0 {
+						add(c.keysOf(call.Args[0])) // in-place opaque function (sort.Float64s)
+						if ue, ok := unparen(call.Args[0]).(*ast.UnaryExpr); ok && ue.Op == token.AND {
+							if cl, ok := unparen(ue.X).(*ast.CompositeLit); ok {
+								for _, el := range cl.Elts {
+									if kv, isKV := el.(*ast.KeyValueExpr); isKV {
+										el = kv.Value
+									}
+									add(c.keysOf(el)) // sort.Sort(&pairSlice{xs, ys})
+								}
+							}
+						}
+					}
 				}
 			}
 		case *ast.FuncLit:
@@ -799,7 +931,31 @@ func (c *fctx) assigned(n ast.Node) []envKey {
 		}
 		return true
 	})
+	// canonical order: by the position of the variable's declaration (then by field), so that
+	// the order in which a loop body or an if-arm happens to assign its variables does not
+	// change the shape of the generated state tuple
+	sort.SliceStable(out, func(a, b int) bool {
+		pa, pb := out[a].obj.Pos(), out[b].obj.Pos()
+		if pa != pb {
+			return pa < pb
+		}
+		return c.fieldIndex(out[a]) < c.fieldIndex(out[b])
+	})
 	return out
+}
+
+func (c *fctx) fieldIndex(k envKey) int {
+	if k.field == "" {
+		return -1
+	}
+	if r := c.recOf(k.obj); r != nil {
+		for i, f := range r.fields {
+			if f.name == k.field {
+				return i
+			}
+		}
+	}
+	return 0
 }
 
 // mutatedReceiver: for a statement call x.M(...) of a module method with pointer receiver
@@ -817,9 +973,10 @@ func (c *fctx) mutatedReceiver(call *ast.CallExpr) types.Object {
 	if !ok {
 		return nil
 	}
-	if _, isOpaque := c.opaqueName(f); isOpaque {
-		// an opaque method with pointer receiver called as a statement is taken to modify its receiver
-		if _, ptr := f.Type().(*types.Signature).Recv().Type().(*types.Pointer); ptr {
+	if _, ro, isOpaque := c.opaqueSpec(f); isOpaque {
+		// an opaque method with pointer receiver is taken to modify its receiver unless the
+		// directive says "name!ro"
+		if _, ptr := f.Type().(*types.Signature).Recv().Type().(*types.Pointer); ptr && !ro {
 			if o := c.baseVar(sel.X); o != nil && c.recOf(o) != nil {
 				return o
 			}
@@ -864,6 +1021,23 @@ func (c *fctx) mutates(body ast.Node, v *types.Var) bool {
 			}
 		}
 		return true
+	})
+	return found
+}
+
+// containsContinue: an unlabelled continue that belongs to the loop enclosing n (not to a loop inside n).
+func containsContinue(n ast.Node) bool {
+	found := false
+	ast.Inspect(n, func(n ast.Node) bool {
+		switch x := n.(type) {
+		case *ast.BranchStmt:
+			if x.Tok == token.CONTINUE {
+				found = true
+			}
+		case *ast.ForStmt, *ast.RangeStmt, *ast.FuncLit:
+			return false
+		}
+		return !found
 	})
 	return found
 }
@@ -930,6 +1104,9 @@ func (c *fctx) stmts(list []ast.Stmt, k func() string) string {
 	case *ast.BlockStmt:
 		return c.stmts(s.List, next)
 	case *ast.ReturnStmt:
+		if c.curried != nil && c.sig == c.u.obj.Type().(*types.Signature) {
+			return c.curriedReturn(s)
+		}
 		var vals []string
 		if len(s.Results) == 0 {
 			if c.sig.Results().Len() > 0 {
@@ -940,6 +1117,18 @@ func (c *fctx) stmts(list []ast.Stmt, k func() string) string {
 					}
 				}
 			}
+		} else if call, isCall := unparen(s.Results[0]).(*ast.CallExpr); len(s.Results) == 1 && isCall && c.u.fueled && c.fueledCallee(call) != nil {
+			cu := c.fueledCallee(call)
+			f := c.calledFunc(call)
+			term, mut := c.fueledCallTerm(cu, call, f)
+			if mut != nil {
+				c.fail(s.Pos(), "return of a call that updates its receiver")
+			}
+			names := make([]string, c.sig.Results().Len())
+			for i := range names {
+				names[i] = c.fresh("r")
+			}
+			return fmt.Sprintf("match %s with\n| None => %s\n| Some %s => %s\nend", term, c.fuelOut(), matchPattern(names), c.retK(names))
 		} else if len(s.Results) == 1 && c.sig.Results().Len() > 1 {
 			// return f() with a multi-valued f
 			names := make([]string, c.sig.Results().Len())
@@ -949,14 +1138,20 @@ func (c *fctx) stmts(list []ast.Stmt, k func() string) string {
 			return fmt.Sprintf("let %s := %s in\n%s", pattern(names), c.callMulti(s.Results[0], len(names)), c.retK(names))
 		} else {
 			for i, e := range s.Results {
-				vals = append(vals, c.exprAs(e, c.sig.Results().At(i).Type()))
+				vals = append(vals, c.exprAs(e, c.resTys[i]))
 			}
 		}
 		return c.retK(vals)
 	case *ast.DeclStmt:
+		if out, ok := c.recClosureDecl(s, rest, k); ok {
+			return out
+		}
 		gd, ok := s.Decl.(*ast.GenDecl)
 		if ok && gd.Tok == token.CONST {
 			return next() // local constants are folded by go/types at their uses
+		}
+		if ok && gd.Tok == token.TYPE {
+			return next() // a local type declaration declares nothing to translate (uses of the type are checked where they occur)
 		}
 		if !ok || gd.Tok != token.VAR {
 			c.fail(s.Pos(), "local declaration other than var")
@@ -993,6 +1188,14 @@ func (c *fctx) stmts(list []ast.Stmt, k func() string) string {
 		}
 		return out + next()
 	case *ast.AssignStmt:
+		if out, ok := c.assertOK(s); ok {
+			return out + next()
+		}
+		if c.u.fueled {
+			if out, ok := c.fueledAssign(s, next); ok {
+				return out
+			}
+		}
 		return c.assign(s) + next()
 	case *ast.IncDecStmt:
 		t := c.typeOf(c.info.TypeOf(s.X), s.Pos())
@@ -1011,12 +1214,44 @@ func (c *fctx) stmts(list []ast.Stmt, k func() string) string {
 			if !ok {
 				c.fail(s.Pos(), "panic(...) (no \"panic\" directive for this target group)")
 			}
-			c.opq[name] = opq{name, c.retTy}
-			return name
+			c.addOpq(opq{name: name, typ: c.rawTy}, s.Pos())
+			return c.retWrap(name)
 		}
 		call, ok := s.X.(*ast.CallExpr)
 		if !ok {
 			c.fail(s.Pos(), "expression statement")
+		}
+		if rc := c.recClosureOf(call); rc != nil {
+			return c.recCall(rc, call, next)
+		}
+		if c.u.fueled {
+			if cu := c.fueledCallee(call); cu != nil {
+				f := c.calledFunc(call)
+				term, mut := c.fueledCallTerm(cu, call, f)
+				if mut == nil {
+					c.fail(s.Pos(), "call statement whose effect is not an update of a struct through its pointer receiver")
+				}
+				tmp := c.fresh(mut.Name())
+				names := []string{tmp}
+				for i := 0; i < f.Type().(*types.Signature).Results().Len(); i++ {
+					names = append(names, "_")
+				}
+				out := c.writeWhole(mut, c.recOf(mut), tmp)
+				return fmt.Sprintf("match %s with\n| None => %s\n| Some %s =>\n%s\nend", term, c.fuelOut(), matchPattern(names), indent(out+next(), "  "))
+			}
+		}
+		if dst, old, src, ok := c.copyCall(call); ok {
+			// copy(dst, src) on a slice variable dst
+			n := c.bind(dst, dst.Name())
+			return fmt.Sprintf("let %s := (go_copy %s %s) in\n", n, old, src) + next()
+		}
+		if out, ok := c.inPlaceOpaqueLit(call); ok {
+			return out + next()
+		}
+		if o2, name, arg := c.inPlaceOpaque(call); o2 != nil {
+			// f(xs) of an opaque function without results (sort.Float64s): xs becomes  f xs
+			n := c.bind(o2, o2.Name())
+			return fmt.Sprintf("let %s := (%s %s) in\n", n, name, arg) + next()
 		}
 		o := c.mutatedReceiver(call)
 		if o == nil {
@@ -1037,7 +1272,7 @@ func (c *fctx) stmts(list []ast.Stmt, k func() string) string {
 				tys = append(tys, c.coqTy(c.typeOf(fsig.Params().At(i).Type(), a.Pos()), a.Pos()))
 			}
 			tys = append(tys, r.name+"_rec")
-			c.opq[name] = opq{name, strings.Join(tys, " -> ")}
+			c.addOpq(opq{name: name, typ: strings.Join(tys, " -> ")}, s.Pos())
 			tmp := c.fresh(o.Name())
 			out := fmt.Sprintf("let %s := (%s) in\n", tmp, strings.Join(parts, " "))
 			out += c.writeWhole(o, r, tmp)
@@ -1060,11 +1295,19 @@ func (c *fctx) stmts(list []ast.Stmt, k func() string) string {
 		out := fmt.Sprintf("let %s := %s in\n", pattern(names), term)
 		out += c.writeWhole(o, r, tmp)
 		return out + next()
+	case *ast.BranchStmt:
+		if s.Tok == token.CONTINUE && s.Label == nil && c.contK != nil {
+			return c.contK() // the rest of the body is skipped: the loop state as it is now
+		}
+		c.fail(s.Pos(), "%s (only an unlabelled continue directly inside a range or counting loop is supported)", s.Tok)
 	case *ast.IfStmt:
 		return c.ifStmt(s, next)
 	case *ast.SwitchStmt:
 		return c.switchStmt(s, next)
 	case *ast.RangeStmt:
+		if j := c.searchGoto(s, rest); j >= 0 {
+			return c.searchGotoStmt(s, rest, j, k)
+		}
 		return c.rangeStmt(s, next)
 	case *ast.ForStmt:
 		return c.forStmt(s, next)
@@ -1188,13 +1431,21 @@ func (c *fctx) assign(s *ast.AssignStmt) string {
 				c.fail(s.Pos(), "multi-valued assignment from %T (map lookup, type assertion or channel receive)", s.Rhs[0])
 			}
 			term := c.callMulti(s.Rhs[0], len(s.Lhs))
-			tmps := make([]string, len(s.Lhs))
-			for i := range tmps {
-				tmps[i] = c.fresh("t")
+			var tmps []string
+			var keep []int
+			for i, l := range s.Lhs {
+				if c.ifaceResult(s.Rhs[0], i, l) {
+					continue // an interface value returned by an opaque call: only its opaque methods are used
+				}
+				tmps = append(tmps, c.fresh("t"))
+				keep = append(keep, i)
+			}
+			if len(tmps) == 0 {
+				return ""
 			}
 			out := fmt.Sprintf("let %s := %s in\n", pattern(tmps), term)
-			for i, l := range s.Lhs {
-				out += c.store(l, tmps[i])
+			for k, i := range keep {
+				out += c.store(s.Lhs[i], tmps[k])
 			}
 			return out
 		}
@@ -1280,12 +1531,19 @@ func (c *fctx) ifStmt(s *ast.IfStmt, next func() string) string {
 		}
 		pre = strings.TrimSuffix(pre, "\x00")
 	}
-	cond := c.expr(s.Cond)
 	var elseList []ast.Stmt
 	if s.Else != nil {
 		elseList = []ast.Stmt{s.Else}
 	}
-	if !containsReturn(s.Body) && (s.Else == nil || !containsReturn(s.Else)) && !c.containsPanic(s) {
+	if tv := c.info.Types[s.Cond]; tv.Value != nil && tv.Value.Kind() == constant.Bool {
+		// a constant condition (if debug { ... } with const debug = false): only the live arm exists
+		if constant.BoolVal(tv.Value) {
+			return pre + c.stmts(s.Body.List, next)
+		}
+		return pre + c.stmts(elseList, next)
+	}
+	cond := c.expr(s.Cond)
+	if !containsReturn(s.Body) && (s.Else == nil || !containsReturn(s.Else)) && !c.containsPanic(s) && !c.containsFueled(s) && !containsContinue(s) {
 		// join: the arms only update variables
 		w := c.assigned(s)
 		if len(w) == 0 {
@@ -1366,7 +1624,7 @@ func (c *fctx) switchStmt(s *ast.SwitchStmt, next func() string) string {
 			clauses = append(clauses, cc)
 		}
 	}
-	joinable := !containsReturn(s.Body) && !c.containsPanic(s.Body)
+	joinable := !containsReturn(s.Body) && !c.containsPanic(s.Body) && !c.containsFueled(s.Body) && !containsContinue(s.Body)
 	var w []envKey
 	if joinable {
 		w = c.assigned(s.Body)
@@ -1429,8 +1687,18 @@ func (c *fctx) loopBodyCheck(body *ast.BlockStmt) {
 	ast.Inspect(body, func(n ast.Node) bool {
 		switch x := n.(type) {
 		case *ast.BranchStmt:
+			if x.Tok == token.CONTINUE && x.Label == nil {
+				return true // translated where it stands (range / counting loops); refused in for-cond loops
+			}
+			if c.gotoOK()[x] {
+				return true // goto found out of a search loop (recfn.go: searchGoto)
+			}
 			c.fail(x.Pos(), "%s inside a loop", x.Tok)
-		case *ast.GoStmt, *ast.DeferStmt, *ast.SelectStmt, *ast.SendStmt, *ast.LabeledStmt:
+		case *ast.LabeledStmt:
+			if !c.gotoOK()[x] {
+				c.fail(n.Pos(), "%T inside a loop", n)
+			}
+		case *ast.GoStmt, *ast.DeferStmt, *ast.SelectStmt, *ast.SendStmt:
 			c.fail(n.Pos(), "%T inside a loop", n)
 		}
 		return true
@@ -1440,9 +1708,18 @@ func (c *fctx) loopBodyCheck(body *ast.BlockStmt) {
 // loop emits  let W := fold_left (fun W item => body) items W in next   and, when the body
 // may return, threads an option through the fold (the first return wins).
 func (c *fctx) loop(s ast.Stmt, body *ast.BlockStmt, items string, itemPat func() string, next func() string) string {
+	ast.Inspect(body, func(n ast.Node) bool {
+		if fl, ok := n.(*ast.FuncLit); ok {
+			c.fail(fl.Pos(), "function literal (closure) inside a loop")
+		}
+		return true
+	})
 	c.loopBodyCheck(body)
 	if c.containsPanic(body) {
 		c.fail(body.Pos(), "panic inside a loop body")
+	}
+	if c.containsFueled(body) {
+		return c.loopCtl(body, items, itemPat, next)
 	}
 	w := c.assigned(body)
 	mayReturn := containsReturn(body)
@@ -1480,8 +1757,12 @@ func (c *fctx) loop(s ast.Stmt, body *ast.BlockStmt, items string, itemPat func(
 		initT = tuple(initXs)
 	}
 	_ = inner
+	oldCont := c.contK
+	defer func() { c.contK = oldCont }()
 	if !mayReturn {
+		c.contK = wt
 		b := c.stmts(body.List, wt)
+		c.contK = oldCont
 		c.env = copyMap(saved)
 		var names []string
 		for _, o := range w {
@@ -1490,12 +1771,14 @@ func (c *fctx) loop(s ast.Stmt, body *ast.BlockStmt, items string, itemPat func(
 		return fmt.Sprintf("let %s :=\n  fold_left (fun %s %s =>\n%s)\n    %s %s in\n", pattern(names), accPat, ip, indent(b, "      "), items, initT) + next()
 	}
 	// early return: accumulator (option R * W)
-	oldK, oldTy := c.retK, c.retTy
-	rty := oldTy
-	c.retK = func(vals []string) string { return fmt.Sprintf("(Some %s, %s)", oldK(vals), wt()) }
+	oldW, oldTy := c.retWrap, c.retTy
+	rty := c.rawTy
+	c.retWrap = func(r string) string { return fmt.Sprintf("(Some %s, %s)", r, wt()) }
 	c.retTy = "?"
+	c.contK = func() string { return fmt.Sprintf("(@None (%s), %s)", rty, wt()) }
 	b := c.stmts(body.List, func() string { return fmt.Sprintf("(@None (%s), %s)", rty, wt()) })
-	c.retK, c.retTy = oldK, oldTy
+	c.contK = oldCont
+	c.retWrap, c.retTy = oldW, oldTy
 	c.env = copyMap(saved)
 	ret := c.fresh("ret")
 	done := c.fresh("ret")
@@ -1518,10 +1801,16 @@ func (c *fctx) loop(s ast.Stmt, body *ast.BlockStmt, items string, itemPat func(
 				return tuple(accNames)
 			}
 			return "tt"
-		}(), indent(b, "        "), items, rty, initT, ret, rv, rv, indent(next(), "  "))
+		}(), indent(b, "        "), items, rty, initT, ret, rv, c.retWrap(rv), indent(next(), "  "))
 }
 
 func (c *fctx) rangeStmt(s *ast.RangeStmt, next func() string) string {
+	items, pat := c.rangeItems(s)
+	return c.loop(s, s.Body, items, pat, next)
+}
+
+// rangeItems: the list a range statement folds over and the binder of one item.
+func (c *fctx) rangeItems(s *ast.RangeStmt) (string, func() string) {
 	xt := c.typeOf(c.info.TypeOf(s.X), s.X.Pos())
 	if xt.k != kSlice {
 		c.fail(s.Pos(), "range over %s (only slices)", c.info.TypeOf(s.X))
@@ -1531,12 +1820,32 @@ func (c *fctx) rangeStmt(s *ast.RangeStmt, next func() string) string {
 	}
 	// Go reads the elements during the iteration: a body that writes the ranged slice would see
 	// its own writes, the fold over the pre-loop list would not
-	for _, k := range c.assigned(s.Body) {
-		for _, rk := range c.keysOf(s.X) {
-			if k == rk {
-				c.fail(s.X.Pos(), "range over a slice that the loop body modifies")
+	// (with the index only — for i := range xs — nothing is read from xs: the length is fixed at the
+	// start in Go too, and an in-place update xs[i] = ... is fine as long as the length stays)
+	if s.Value != nil && !isBlank(s.Value) {
+		for _, k := range c.assigned(s.Body) {
+			for _, rk := range c.keysOf(s.X) {
+				if k == rk {
+					c.fail(s.X.Pos(), "range over a slice that the loop body modifies")
+				}
 			}
 		}
+	} else {
+		// the body must not change the LENGTH of the ranged slice: no whole-slice assignment to it
+		ast.Inspect(s.Body, func(n ast.Node) bool {
+			if as, ok := n.(*ast.AssignStmt); ok {
+				for _, l := range as.Lhs {
+					if id, isId := unparen(l).(*ast.Ident); isId {
+						for _, rk := range c.keysOf(s.X) {
+							if o := c.info.Uses[id]; o != nil && rk.obj == o && rk.field == "" {
+								c.fail(l.Pos(), "assignment to the ranged slice %s inside the loop", id.Name)
+							}
+						}
+					}
+				}
+			}
+			return true
+		})
 	}
 	xs := c.expr(s.X)
 	keyUsed := s.Key != nil && !isBlank(s.Key)
@@ -1580,7 +1889,7 @@ func (c *fctx) rangeStmt(s *ast.RangeStmt, next func() string) string {
 			c.noAssign(s.Body, c.info.Defs[id], id.Name)
 		}
 	}
-	return c.loop(s, s.Body, items, pat, next)
+	return items, pat
 }
 
 func isBlank(e ast.Expr) bool {
@@ -1606,28 +1915,42 @@ func (c *fctx) noAssign(body ast.Node, o types.Object, name string) {
 	})
 }
 
-// forStmt: for i := a; i < b; i++ (also <=, and the descending forms with > / >= and i--),
-// with a signed loop variable that the body does not assign and a bound that the body does
-// not change.
-func (c *fctx) forStmt(s *ast.ForStmt, next func() string) string {
+// countInfo: a loop of the counting form  for i := a; i < b; i++  (also <=, and the descending
+// forms with > / >= and i--), with a signed loop variable that the body does not assign and a
+// bound that the body does not change.  Every other for statement is a "while" loop and is
+// translated with explicit fuel (whileStmt).
+type countInfo struct {
+	id    *ast.Ident
+	iv    types.Object
+	start ast.Expr
+	bound ast.Expr
+	op    token.Token
+	step  int
+}
+
+func (c *fctx) countingForm(s *ast.ForStmt) *countInfo {
 	if s.Init == nil || s.Cond == nil || s.Post == nil {
-		c.fail(s.Pos(), "for loop that is not of the form  for i := a; i <cmp> b; i++/i--")
+		return nil
 	}
 	as, ok := s.Init.(*ast.AssignStmt)
 	if !ok || as.Tok != token.DEFINE || len(as.Lhs) != 1 || len(as.Rhs) != 1 {
-		c.fail(s.Init.Pos(), "for-loop initialiser other than  i := a")
+		return nil
 	}
-	id := as.Lhs[0].(*ast.Ident)
+	id, ok := as.Lhs[0].(*ast.Ident)
+	if !ok {
+		return nil
+	}
 	iv := c.info.Defs[id]
-	it := c.typeOf(iv.Type(), id.Pos())
-	if it.k != kSInt {
-		c.fail(id.Pos(), "loop variable of type %s (only signed integers)", iv.Type())
+	if iv == nil {
+		return nil
 	}
-	start := c.exprAs(as.Rhs[0], iv.Type())
+	if it, ok := c.tryType(iv.Type()); !ok || it.k != kSInt {
+		return nil
+	}
 	step := 0
 	switch p := s.Post.(type) {
 	case *ast.IncDecStmt:
-		if c.rootVar(p.X) == iv {
+		if pid, ok := unparen(p.X).(*ast.Ident); ok && c.info.Uses[pid] == iv {
 			if p.Tok == token.INC {
 				step = 1
 			} else {
@@ -1635,22 +1958,24 @@ func (c *fctx) forStmt(s *ast.ForStmt, next func() string) string {
 			}
 		}
 	case *ast.AssignStmt:
-		if len(p.Lhs) == 1 && c.rootVar(p.Lhs[0]) == iv && len(p.Rhs) == 1 {
-			if tv := c.info.Types[p.Rhs[0]]; tv.Value != nil && constant.Compare(tv.Value, token.EQL, constant.MakeInt64(1)) {
-				if p.Tok == token.ADD_ASSIGN {
-					step = 1
-				} else if p.Tok == token.SUB_ASSIGN {
-					step = -1
+		if len(p.Lhs) == 1 && len(p.Rhs) == 1 {
+			if pid, ok := unparen(p.Lhs[0]).(*ast.Ident); ok && c.info.Uses[pid] == iv {
+				if tv := c.info.Types[p.Rhs[0]]; tv.Value != nil && constant.Compare(tv.Value, token.EQL, constant.MakeInt64(1)) {
+					if p.Tok == token.ADD_ASSIGN {
+						step = 1
+					} else if p.Tok == token.SUB_ASSIGN {
+						step = -1
+					}
 				}
 			}
 		}
 	}
 	if step == 0 {
-		c.fail(s.Post.Pos(), "for-loop step other than i++ / i-- / i += 1 / i -= 1")
+		return nil
 	}
 	be, ok := unparen(s.Cond).(*ast.BinaryExpr)
 	if !ok {
-		c.fail(s.Cond.Pos(), "for-loop condition that is not a comparison of the loop variable")
+		return nil
 	}
 	op := be.Op
 	var bound ast.Expr
@@ -1660,44 +1985,88 @@ func (c *fctx) forStmt(s *ast.ForStmt, next func() string) string {
 		bound = be.X
 		op = map[token.Token]token.Token{token.LSS: token.GTR, token.GTR: token.LSS, token.LEQ: token.GEQ, token.GEQ: token.LEQ}[op]
 	} else {
-		c.fail(s.Cond.Pos(), "for-loop condition that is not a comparison of the loop variable")
+		return nil
 	}
-	// the bound must be loop-invariant
-	w := c.assigned(s.Body)
+	switch {
+	case step == 1 && (op == token.LSS || op == token.LEQ):
+	case step == -1 && (op == token.GTR || op == token.GEQ):
+	default:
+		return nil
+	}
+	// the bound must be loop-invariant: it mentions neither the loop variable nor anything the body may assign
+	okb := true
+	assignedObjs := c.assignedObjs(s.Body)
 	ast.Inspect(bound, func(n ast.Node) bool {
 		if idn, ok := n.(*ast.Ident); ok {
 			o := c.info.Uses[idn]
-			if o == iv {
-				c.fail(idn.Pos(), "loop bound mentions the loop variable")
-			}
-			for _, x := range w {
-				if x.obj == o {
-					c.fail(idn.Pos(), "loop bound %s is modified by the loop body", idn.Name)
-				}
+			if o == iv || (o != nil && assignedObjs[o]) {
+				okb = false
 			}
 		}
-		if _, ok := n.(*ast.CallExpr); ok {
-			if tv := c.info.Types[n.(*ast.CallExpr)]; tv.Value == nil {
-				if !c.isLenCall(n.(*ast.CallExpr)) && !tv.IsType() {
-					// calls in the bound are evaluated once here; accept only pure calls (all translated calls are pure)
+		return true
+	})
+	if !okb || assignedObjs[iv] {
+		return nil
+	}
+	return &countInfo{id: id, iv: iv, start: as.Rhs[0], bound: bound, op: op, step: step}
+}
+
+// assignedObjs: the root variables of all assignment targets in n (independent of c.env).
+func (c *fctx) assignedObjs(n ast.Node) map[types.Object]bool {
+	out := map[types.Object]bool{}
+	ast.Inspect(n, func(n ast.Node) bool {
+		switch s := n.(type) {
+		case *ast.AssignStmt:
+			for _, l := range s.Lhs {
+				if o := c.rootVar(l); o != nil {
+					out[o] = true
+				}
+			}
+		case *ast.IncDecStmt:
+			if o := c.rootVar(s.X); o != nil {
+				out[o] = true
+			}
+		case *ast.ExprStmt:
+			// x.M(...) may update x through a pointer receiver
+			if call, ok := s.X.(*ast.CallExpr); ok {
+				if sel, ok := call.Fun.(*ast.SelectorExpr); ok {
+					if _, isSel := c.info.Selections[sel]; isSel {
+						if o := c.rootVar(sel.X); o != nil {
+							out[o] = true
+						}
+					}
+				}
+				// f(xs) of an opaque in-place function (sort.Float64s) updates xs
+				for _, a := range call.Args {
+					if o := c.rootVar(a); o != nil {
+						out[o] = true
+					}
 				}
 			}
 		}
 		return true
 	})
-	b := c.exprAs(bound, iv.Type())
+	return out
+}
+
+func (c *fctx) forStmt(s *ast.ForStmt, next func() string) string {
+	ci := c.countingForm(s)
+	if ci == nil {
+		return c.whileStmt(s, next)
+	}
+	iv, id := ci.iv, ci.id
+	start := c.exprAs(ci.start, iv.Type())
+	b := c.exprAs(ci.bound, iv.Type())
 	var items string
 	switch {
-	case step == 1 && op == token.LSS:
+	case ci.step == 1 && ci.op == token.LSS:
 		items = fmt.Sprintf("(go_range %s %s)", start, b)
-	case step == 1 && op == token.LEQ:
+	case ci.step == 1 && ci.op == token.LEQ:
 		items = fmt.Sprintf("(go_range %s (%s + 1)%%Z)", start, b)
-	case step == -1 && op == token.GTR:
+	case ci.step == -1 && ci.op == token.GTR:
 		items = fmt.Sprintf("(go_range_down (%s + 1)%%Z (%s + 1)%%Z)", b, start)
-	case step == -1 && op == token.GEQ:
+	case ci.step == -1 && ci.op == token.GEQ:
 		items = fmt.Sprintf("(go_range_down %s (%s + 1)%%Z)", b, start)
-	default:
-		c.fail(s.Cond.Pos(), "for-loop condition %s with step %+d", be.Op, step)
 	}
 	c.noAssign(s.Body, iv, id.Name)
 	pat := func() string { return c.bind(iv, id.Name) }
@@ -1719,12 +2088,14 @@ func (c *fctx) isLenCall(call *ast.CallExpr) bool {
 func (c *fctx) exprAs(e ast.Expr, want types.Type) string {
 	tv := c.info.Types[e]
 	if tv.IsNil() && want != nil {
-		if t := c.typeOf(want, e.Pos()); t.k == kSlice {
-			return c.zero(t, e.Pos()) // a nil slice is the empty list
+		// a nil slice is the empty list; a nil error is None; a nil *T is read as the zero
+		// record (README, semantics assumptions: the accompanying error value discriminates)
+		if t := c.typeOf(want, e.Pos()); t.k == kSlice || t.k == kErr || t.k == kRec {
+			return c.zero(t, e.Pos())
 		}
 	}
 	if tv.Value != nil && want != nil {
-		return c.constant(tv.Value, c.typeOf(want, e.Pos()), e.Pos())
+		return c.constant(c.exactValue(e, tv.Value), c.typeOf(want, e.Pos()), e.Pos())
 	}
 	return c.expr(e)
 }
@@ -1781,7 +2152,7 @@ func (c *fctx) expr(e ast.Expr) string {
 	tv, has := c.info.Types[e]
 	if has && tv.Value != nil && tv.Type != nil {
 		if b, ok := tv.Type.Underlying().(*types.Basic); ok && b.Info()&types.IsString == 0 {
-			return c.constant(tv.Value, c.typeOf(tv.Type, e.Pos()), e.Pos())
+			return c.constant(c.exactValue(e, tv.Value), c.typeOf(tv.Type, e.Pos()), e.Pos())
 		}
 	}
 	switch x := e.(type) {
@@ -1799,8 +2170,15 @@ func (c *fctx) expr(e ast.Expr) string {
 		case *types.Var:
 			if name, ok := c.opaqueVar(o); ok {
 				t := c.typeOf(o.Type(), x.Pos())
-				c.opq[name] = opq{name, c.coqTy(t, x.Pos())}
+				if t.k == kErr {
+					c.addOpq(opq{name: name, typ: "N"}, x.Pos())
+					return "(Some " + name + ")"
+				}
+				c.addOpq(opq{name: name, typ: c.coqTy(t, x.Pos())}, x.Pos())
 				return name
+			}
+			if isInterface(o.Type()) && !isErrorType(o.Type()) {
+				c.fail(x.Pos(), "use of the interface value %s other than as the receiver of an opaque method call or as an argument passed on", x.Name)
 			}
 			c.fail(x.Pos(), "package-level variable %s (not constant; declare it opaque to pass it as a parameter)", x.Name)
 		case *types.Nil:
@@ -1828,7 +2206,7 @@ func (c *fctx) expr(e ast.Expr) string {
 		if o, ok := c.info.Uses[x.Sel].(*types.Var); ok {
 			if name, ok := c.opaqueVar(o); ok {
 				t := c.typeOf(o.Type(), x.Pos())
-				c.opq[name] = opq{name, c.coqTy(t, x.Pos())}
+				c.addOpq(opq{name: name, typ: c.coqTy(t, x.Pos())}, x.Pos())
 				return name
 			}
 		}
@@ -1921,11 +2299,11 @@ func (c *fctx) expr(e ast.Expr) string {
 		}
 		c.fail(x.Pos(), "composite literal of type %s", c.info.TypeOf(x))
 	case *ast.FuncLit:
-		c.fail(x.Pos(), "function literal (closure)")
+		return c.funcLit(x)
 	case *ast.SliceExpr:
-		c.fail(x.Pos(), "slice expression a[i:j]")
+		return c.sliceExpr(x)
 	case *ast.TypeAssertExpr:
-		c.fail(x.Pos(), "type assertion")
+		return c.typeAssert(x)
 	}
 	c.fail(e.Pos(), "expression %T", e)
 	return ""
@@ -1966,6 +2344,26 @@ func (c *fctx) binary(x *ast.BinaryExpr) string {
 		rt := c.typeOf(rt0, x.Y.Pos())
 		return c.binop(x.Op, lt, c.exprAs(x.X, c.info.TypeOf(x)), c.expr(x.Y), rt, x.Pos())
 	case token.EQL, token.NEQ, token.LSS, token.LEQ, token.GTR, token.GEQ:
+		if x.Op == token.EQL || x.Op == token.NEQ {
+			// xs == nil for a slice: read as len(xs) == 0 (a non-nil empty slice is not
+			// distinguished from nil; README, semantics assumptions)
+			var sl ast.Expr
+			if c.info.Types[x.Y].IsNil() {
+				sl = x.X
+			} else if c.info.Types[x.X].IsNil() {
+				sl = x.Y
+			}
+			if sl != nil {
+				if st, ok := c.tryType(c.info.TypeOf(sl)); ok && st.k == kSlice {
+					t := fmt.Sprintf("(go_isnil %s)", c.expr(sl))
+					if x.Op == token.NEQ {
+						t = "(negb " + t + ")"
+					}
+					return t
+				}
+				c.fail(x.Pos(), "comparison with nil of something other than a slice")
+			}
+		}
 		// operand type: the typed side decides
 		ot := lt0
 		if b, ok := ot.(*types.Basic); ok && b.Info()&types.IsUntyped != 0 {
@@ -2048,6 +2446,18 @@ func (c *fctx) binop(op token.Token, t ty, a, b string, rt ty, p token.Pos) stri
 		if fn != "" {
 			return fmt.Sprintf("(%s %d %s %s)", fn, t.bits, a, b)
 		}
+		if op == token.SHL {
+			// k << c on a signed integer: multiplication by 2^c with wrap-around (c >= 0: Go panics on a negative count)
+			cnt := b
+			switch rt.k {
+			case kSInt:
+			case kUInt:
+				cnt = fmt.Sprintf("(Z.of_N %s)", b)
+			default:
+				c.fail(p, "shift count of this type")
+			}
+			return fmt.Sprintf("(go_sshl %d %s %s)", t.bits, a, cnt)
+		}
 	case kUInt:
 		fn := map[token.Token]string{token.ADD: "go_uadd", token.SUB: "go_usub", token.MUL: "go_umul", token.QUO: "go_udiv", token.REM: "go_urem",
 			token.AND: "go_uand", token.OR: "go_uor", token.XOR: "go_uxor", token.AND_NOT: "go_uandnot"}[op]
@@ -2075,23 +2485,36 @@ func (c *fctx) binop(op token.Token, t ty, a, b string, rt ty, p token.Pos) stri
 
 // ---------------------------------------------------------------- calls
 
-var mathFuncs = map[string]string{"Floor": "go_floor", "Ceil": "go_ceil", "Abs": "go_abs", "Max": "go_fmax", "Min": "go_fmin", "Trunc": "go_trunc"}
+var mathFuncs = map[string]string{"Modf": "go_modf", "Floor": "go_floor", "Ceil": "go_ceil", "Abs": "go_abs", "Max": "go_fmax", "Min": "go_fmin", "Trunc": "go_trunc"}
 
 func (c *fctx) opaqueName(f *types.Func) (string, bool) {
+	n, _, ok := c.opaqueSpec(f)
+	return n, ok
+}
+
+// opaqueSpec: the opaque parameter name of f and whether the directive marks it read-only
+// ("name!ro": an opaque method with pointer receiver that does not update its receiver).
+func (c *fctx) opaqueSpec(f *types.Func) (string, bool, bool) {
 	if c.u.group.Opaque == nil {
-		return "", false
+		return "", false, false
 	}
 	key := funcKey(f)
+	n, ok := "", false
 	if f.Pkg() != nil {
-		if n, ok := c.u.group.Opaque[f.Pkg().Name()+"."+key]; ok {
-			return n, true
-		}
-		if f.Pkg().Path() != c.u.pkg.path {
-			return "", false
+		if n, ok = c.u.group.Opaque[f.Pkg().Name()+"."+key]; !ok && f.Pkg().Path() != c.u.pkg.path {
+			return "", false, false
 		}
 	}
-	n, ok := c.u.group.Opaque[key]
-	return n, ok
+	if !ok {
+		n, ok = c.u.group.Opaque[key]
+	}
+	if !ok {
+		return "", false, false
+	}
+	if strings.HasSuffix(n, "!ro") {
+		return strings.TrimSuffix(n, "!ro"), true, true
+	}
+	return n, false, true
 }
 
 func (c *fctx) opaqueVar(v *types.Var) (string, bool) {
@@ -2132,6 +2555,9 @@ func (c *fctx) callee(f *types.Func, p token.Pos) *unit {
 	if cu.err != nil {
 		c.fail(p, "call of %s, which is not translatable: %v", cu.key, cu.err)
 	}
+	if cu.curried {
+		c.fail(p, "call of %s, which returns a closure (such a function is only translated uncurried, as a target of its own)", cu.key)
+	}
 	found := false
 	for _, d := range c.u.deps {
 		if d == cu {
@@ -2149,8 +2575,15 @@ func (c *fctx) callTerm(cu *unit, recv string, call *ast.CallExpr, f *types.Func
 	sig := f.Type().(*types.Signature)
 	parts := []string{cu.coqName}
 	for _, o := range cu.opaque {
-		c.opq[o.name] = o
+		if o.ifaceVar != nil {
+			parts = append(parts, c.ifaceArg(cu, o, call, f))
+			continue
+		}
+		c.addOpq(o, call.Pos())
 		parts = append(parts, o.name)
+	}
+	if cu.fueled {
+		parts = append(parts, "fuel")
 	}
 	if recv != "" {
 		parts = append(parts, recv)
@@ -2203,6 +2636,29 @@ func (c *fctx) callN(x *ast.CallExpr, nres int) string {
 					c.fail(x.Pos(), "make of something other than a slice with a length")
 				}
 				return fmt.Sprintf("(go_make %s %s)", c.zero(*t.elem, x.Pos()), c.indexTerm(x.Args[1]))
+			case "append":
+				// append(xs, v1, ..., vk) and append(xs, ys...): the new slice value (slices are
+				// values here: the write into spare capacity that Go may share with xs is not modelled)
+				t := c.typeOf(c.info.TypeOf(x), x.Pos())
+				if t.k != kSlice || len(x.Args) < 1 {
+					c.fail(x.Pos(), "append on something other than a slice")
+				}
+				base := c.exprAs(x.Args[0], c.info.TypeOf(x))
+				if x.Ellipsis != token.NoPos {
+					if len(x.Args) != 2 {
+						c.fail(x.Pos(), "append with a spread argument and other arguments")
+					}
+					return fmt.Sprintf("(%s ++ %s)", base, c.expr(x.Args[1]))
+				}
+				et := c.info.TypeOf(x).Underlying().(*types.Slice).Elem()
+				var vs []string
+				for _, a := range x.Args[1:] {
+					vs = append(vs, c.exprAs(a, et))
+				}
+				if len(vs) == 0 {
+					return base
+				}
+				return fmt.Sprintf("(%s ++ [%s])", base, strings.Join(vs, "; "))
 			}
 			c.fail(x.Pos(), "builtin %s", b.Name())
 		}
@@ -2227,9 +2683,40 @@ func (c *fctx) callN(x *ast.CallExpr, nres int) string {
 			}
 			c.fail(x.Pos(), "call of the function variable %s", fn.Name)
 		}
+	case *ast.CallExpr:
+		// f(a)(b): the call of a function returned by a call
+		if sig, ok := c.info.TypeOf(fn).Underlying().(*types.Signature); ok {
+			parts := []string{c.expr(fn)}
+			for i, a := range x.Args {
+				parts = append(parts, c.exprAs(a, sig.Params().At(i).Type()))
+			}
+			return "(" + strings.Join(parts, " ") + ")"
+		}
 	case *ast.SelectorExpr:
 		if sel, ok := c.info.Selections[fn]; ok {
 			if sel.Kind() == types.FieldVal {
+				// r.F(args) with the directive "T.F": an opaque function of the record and the arguments
+				if rt, ok := c.tryType(c.info.TypeOf(fn.X)); ok && rt.k == kRec && c.u.group.Opaque != nil {
+					if name, has := c.u.group.Opaque[c.record(rt.rec, x.Pos()).name+"."+fn.Sel.Name]; has {
+						fsig, _ := sel.Obj().Type().Underlying().(*types.Signature)
+						if fsig == nil {
+							c.fail(x.Pos(), "call of the non-function field %s", fn.Sel.Name)
+						}
+						parts := []string{name, c.expr(fn.X)}
+						tys := []string{c.coqTy(rt, x.Pos())}
+						for i, a := range x.Args {
+							parts = append(parts, c.exprAs(a, fsig.Params().At(i).Type()))
+							tys = append(tys, c.coqTy(c.typeOf(fsig.Params().At(i).Type(), x.Pos()), x.Pos()))
+						}
+						var rs []string
+						for i := 0; i < fsig.Results().Len(); i++ {
+							rs = append(rs, c.coqTy(c.typeOf(fsig.Results().At(i).Type(), x.Pos()), x.Pos()))
+						}
+						tys = append(tys, strings.Join(rs, " * "))
+						c.addOpq(opq{name: name, typ: strings.Join(tys, " -> ")}, x.Pos())
+						return "(" + strings.Join(parts, " ") + ")"
+					}
+				}
 				c.fail(x.Pos(), "call of a function-valued field %s", fn.Sel.Name)
 			}
 			f, _ = sel.Obj().(*types.Func)
@@ -2253,22 +2740,63 @@ func (c *fctx) callN(x *ast.CallExpr, nres int) string {
 		// unless the receiver is a translatable record
 		parts := []string{name}
 		var tys []string
+		var ifv *types.Var
 		if recvExpr != nil {
 			if rt, ok := c.tryType(c.info.TypeOf(recvExpr)); ok && rt.k == kRec {
 				parts = append(parts, c.expr(recvExpr))
 				tys = append(tys, c.coqTy(rt, x.Pos()))
+			} else if isInterface(c.info.TypeOf(recvExpr)) {
+				// the receiver is not passed: the opaque method stands for the method of ONE
+				// interface value, which must be a parameter of the function
+				id, isId := unparen(recvExpr).(*ast.Ident)
+				if isId {
+					ifv, _ = c.info.Uses[id].(*types.Var)
+				}
+				if ifv == nil || !(c.isParam(ifv) || c.ifaceLocals[ifv]) {
+					c.fail(x.Pos(), "opaque interface method %s called on something other than an interface-typed parameter", name)
+				}
+				if n, idx := c.ifaceParams(ifv); n > 1 {
+					name = fmt.Sprintf("%s_%d", name, idx)
+					parts[0] = name
+				}
 			}
 		}
 		for i, a := range x.Args {
-			parts = append(parts, c.exprAs(a, sig.Params().At(i).Type()))
-			tys = append(tys, c.coqTy(c.typeOf(sig.Params().At(i).Type(), x.Pos()), x.Pos()))
+			pt := sig.Params().At(i).Type()
+			if isInterface(pt) && !isErrorType(pt) && isInterface(c.info.TypeOf(a)) {
+				// an interface value handed on to an opaque function: not represented (the opaque
+				// function stands for "the callee applied to that value"); it must be a parameter
+				id, isId := unparen(a).(*ast.Ident)
+				var v *types.Var
+				if isId {
+					v, _ = c.info.Uses[id].(*types.Var)
+				}
+				if v == nil || !(c.isParam(v) || c.ifaceLocals[v]) {
+					c.fail(a.Pos(), "interface value passed to the opaque %s that is not a parameter", name)
+				}
+				continue
+			}
+			if isInterface(pt) && !isErrorType(pt) && !isInterface(c.info.TypeOf(a)) {
+				pt = c.info.TypeOf(a) // an opaque function applied to a value of concrete type
+			}
+			parts = append(parts, c.exprAs(a, pt))
+			tys = append(tys, c.coqTy(c.typeOf(pt, x.Pos()), x.Pos()))
 		}
 		var rs []string
 		for i := 0; i < sig.Results().Len(); i++ {
-			rs = append(rs, c.coqTy(c.typeOf(sig.Results().At(i).Type(), x.Pos()), x.Pos()))
+			rt := sig.Results().At(i).Type()
+			if isInterface(rt) && !isErrorType(rt) && sig.Results().Len() > 1 {
+				continue // not represented: see ifaceResult
+			}
+			rs = append(rs, c.coqTy(c.typeOf(rt, x.Pos()), x.Pos()))
 		}
 		tys = append(tys, strings.Join(rs, " * "))
-		c.opq[name] = opq{name, strings.Join(tys, " -> ")}
+		c.addOpq(opq{name: name, typ: strings.Join(tys, " -> "), ifaceVar: ifv, method: f}, x.Pos())
+		if ifv == nil {
+			o := c.opq[name]
+			o.method = nil
+			c.opq[name] = o
+		}
 		return "(" + strings.Join(parts, " ") + ")"
 	}
 	// package math
@@ -2293,6 +2821,9 @@ func (c *fctx) callN(x *ast.CallExpr, nres int) string {
 	if len(cu.mutated) > 0 {
 		c.fail(x.Pos(), "call of %s, which modifies a struct through a pointer, inside an expression", cu.key)
 	}
+	if cu.fueled {
+		c.fail(x.Pos(), "call of %s, which contains a loop with fuel, inside an expression (assign its result to a variable first)", cu.key)
+	}
 	if recvExpr != nil {
 		recv = c.expr(recvExpr)
 	}
@@ -2301,12 +2832,15 @@ func (c *fctx) callN(x *ast.CallExpr, nres int) string {
 
 func (c *fctx) convert(arg ast.Expr, to types.Type, p token.Pos) string {
 	tt := c.typeOf(to, p)
+	if c.info.Types[arg].IsNil() && tt.k == kSlice {
+		return c.zero(tt, p) // []T(nil)
+	}
 	if tv := c.info.Types[arg]; tv.Value != nil {
 		// constant conversion: go/types has the converted constant on the call expression; here
 		// only the representable cases
 		switch tt.k {
 		case kFloat, kSInt, kUInt:
-			return c.constant(tv.Value, tt, p)
+			return c.constant(c.exactValue(arg, tv.Value), tt, p)
 		}
 	}
 	ft := c.typeOf(c.info.TypeOf(arg), p)
